@@ -1,22 +1,54 @@
 """pre_hook for harness/impl/crawl_run.py (C01, C03): log every URL-table transaction of the
 REAL crawl to <workdir>/ops.log, one JSON line when the operation begins ("b") and one when it
 has returned, i.e. after its commit ("e").  A "b" without "e" at the end of a killed run is the
-operation the kill interrupted.
+operation the kill interrupted.  Lines "l" record every link the scraper handed to
+ProcessingRule._process_scrape_info (before filtering), in order; "h" the hostnames read at start-up;
+"start" begins a run.
 
 The wrappers only observe: arguments are copied, the wrapped method is called unchanged and its
 result / exception is passed through."""
 import json
 import os
+import time
 
 
 def install(spec):
     import wpull.database.sqltable as st
 
-    log = open(os.path.join(spec['workdir'], 'ops.log'), 'ab', buffering=0)
+    log = open(spec.get('engine_trace_path') or os.path.join(spec['workdir'], 'ops.log'), 'ab', buffering=0)
     seq = [0]
+    t0 = time.time()
 
     def emit(rec):
+        rec['ts'] = round(time.time() - t0, 3)        # for diagnosis only; never compared
         log.write((json.dumps(rec) + '\n').encode())
+
+    emit({'t': 'start', 'pid': os.getpid()})
+
+    # `--concurrent N` is parsed but never applied by this tree (nothing reads args.concurrent
+    # except the verbosity default), so the number of workers is set the way the API offers it:
+    # PipelineSeries.concurrency (which forwards to the download pipeline).
+    conc = int(spec.get('engine_concurrency') or 0)
+    if conc > 1:
+        import wpull.application.builder as wb
+        o_build = wb.Builder.build
+
+        def build(self):
+            app = o_build(self)
+            app._pipeline_series.concurrency = conc
+            return app
+
+        wb.Builder.build = build
+
+    # the links of a scraped page in the scraper's (set iteration) order, admitted or not
+    import wpull.pipeline.session as ps
+    o_child = ps.ItemSession.child_url_record
+
+    def child_url_record(self, url, inline=False, **kw):
+        emit({'t': 'l', 'item': self.url_record.url, 'url': url, 'inline': bool(inline)})
+        return o_child(self, url, inline=inline, **kw)
+
+    ps.ItemSession.child_url_record = child_url_record
 
     def props(p):
         if p is None:
